@@ -179,7 +179,11 @@ func VP_C07_StatusStaged() {
 		case 1:
 			nc := []byte{byte('a' + i)}
 			if i == 0 {
-				nc = zzvp.Bytes("ed0", 1, "") // free: may equal the committed bytes
+				alpha := ""
+				if zzvp.Param("smallcontent", 0) == 1 {
+					alpha = "x\x00\n"
+				}
+				nc = zzvp.Bytes("ed0", 1, alpha) // free: may equal the committed bytes
 			}
 			zzvp.WriteFile(w+"/"+f.path, nc)
 			vpOK(zzvp.Run("add", f.path))
